@@ -48,7 +48,11 @@ for c in checks:
                 os.makedirs(dst, exist_ok=True)
                 shutil.copy(rp, os.path.join(dst, "detected-by-%s.json" % c))
             break
-    sh("rm -rf /verif/run/%s-quick-*" % c)
+    # remove only this run's directory (other runs of the same check may be in flight)
+    dirs = {os.path.dirname(l.split("replay=")[1].strip()) for l in v if l.startswith("VIOLATION") and "replay=" in l}
+    for d in dirs:
+        if d.startswith("/verif/run/"):
+            shutil.rmtree(d, ignore_errors=True)
 sh("git checkout -- .", cwd=wt)
 rc2, _ = sh("cargo run --offline %s >/dev/null 2>&1" % dflags, cwd=demo, e=denv)
 res["demo_without_change_exit"] = rc2
